@@ -107,3 +107,17 @@ Theorem c06_script_paths_well_formed_with_expressions : forall noise e ss,
       (forall n, In n (removelast path) -> CompDefs.owner_in n (source_tables g ++ intermediate_tables g) = true).
 Proof. exact script_paths_well_formed_on_core_x. Qed.
 Print Assumptions c06_script_paths_well_formed_with_expressions.
+
+(** scripts that also contain UPDATE / MERGE statements (Tree/ScriptWellFormedDml.v).  Partial: per DML statement two extra executable
+    guards - [dml_ok] (no sub-query in an UPDATE's WHERE) and [edges_in_rw] (every specified flow goes from a specified read table to
+    the written table: true of every instance tried, not proved in general) *)
+From SV Require Import Ast.SpecDml Tree.RenderDml Tree.ScriptExactDml Tree.ScriptWellFormedDml.
+Theorem c06_script_paths_well_formed_with_update_and_merge_partial : forall noise e xs,
+  noise_ok noise = true -> env_ok e = true -> Forall (core_sstmt6 (e_cfg e)) xs ->
+  exists g, script_graph e false [] (map (r_sstmt noise) xs) = Ok g /\
+    forall b path, In path (column_lineage g b false) ->
+      2 <= List.length path /\
+      (forall n, In n (tl path) -> CompDefs.owner_in n (target_tables g ++ intermediate_tables g) = true) /\
+      (forall n, In n (removelast path) -> CompDefs.owner_in n (source_tables g ++ intermediate_tables g) = true).
+Proof. exact script_paths_well_formed_on_core_xd. Qed.
+Print Assumptions c06_script_paths_well_formed_with_update_and_merge_partial.
